@@ -33,7 +33,7 @@ def plan(tier: str, seed: int):
     if tier == "quick":
         return [{"name": f"s{i}", "engine": "jit", "args": {"n": 1500},
                  "timeout": 900} for i in range(4)]
-    return [{"name": f"s{i}", "engine": "jit", "args": {"n": 6000},
+    return [{"name": f"s{i}", "engine": "jit", "args": {"n": 30000},
              "timeout": 3400} for i in range(16)]
 
 
